@@ -178,6 +178,32 @@ def check_key_covers_executor_reads(ctx, rule: str, only: tuple[str, ...] | None
         )
 
 
+def check_hmac_key_full_or_fresh(ctx, rule: str) -> None:
+    """The signing key handed to DiskCache is either 32 bytes read from the key file (the read is length-checked on the
+    path to the return) or the freshly generated secret — never the content of a torn key file: a half-written or empty
+    key makes every entry 'authenticated' with a key anyone knows."""
+    db, rep = ctx.db, ctx.rep
+    f = db.func("cache._load_or_create_hmac_key")
+    cfg = ctx.cfg(f)
+    rd = reaching_defs(cfg)
+    rets = [n for n in cfg.nodes if n.kind == "stmt" and isinstance(n.ast, ast.Return) and isinstance(n.ast.value, ast.Name)]
+    if not rets:
+        raise AnalysisError("_load_or_create_hmac_key: returns not found")
+    bad = None
+    for r in rets:
+        nm = r.ast.value.id
+        guarded = any(isinstance(a, ast.If) and f"len({nm}) == 32" in src(a.test) and any(contains(b_, r.ast) for b_ in a.body) for a in ancestors(r.ast))
+        for d, v in defs_reaching(cfg, rd, r, nm):
+            if v is None:
+                continue
+            fresh = isinstance(v, ast.Call) and (dotted(v.func) or "").endswith("token_bytes") and v.args and isinstance(v.args[0], ast.Constant) and v.args[0].value == 32
+            from_file = isinstance(v, ast.Call) and isinstance(v.func, ast.Attribute) and v.func.attr == "read"
+            if fresh or (from_file and guarded):
+                continue
+            bad = (r, v)
+    rep.add(rule, f"{f.qname}:key-full-or-fresh", bad is None, f"{f.module.rel}:{(bad[0] if bad else f.node).lineno}", f"{len(rets)} return(s): each hands out a length-checked file key or the fresh 32-byte secret" if bad is None else f"'return {bad[0].ast.value.id}' at line {bad[0].lineno} can hand out '{src(bad[1])}' without the 32-byte check: after a torn write of the key file (0 bytes) the loader re-reads the bad content over the key it just generated, writes it back and signs every entry with an empty key — the signature no longer authenticates anything")
+
+
 def check_disk_store_unconditional(ctx, rule: str) -> None:
     """Once the value could be serialised, DiskCache.set writes the payload row and the signature row on every path: what
     is already on disk (a surviving signature row says nothing about the payload row — eviction, a type-changed or
@@ -499,6 +525,7 @@ def run(ctx) -> None:
 
     check_resume_bypasses_cache(ctx, "C09.R6")
     check_disk_store_unconditional(ctx, "C09.R6")
+    check_hmac_key_full_or_fresh(ctx, "C09.R2")
     ccfg = ctx.cfg(cc)
     cdom = dominators(ccfg.entry)
 
